@@ -4,11 +4,12 @@ import Ops.Transforms
 import Ops.Quant
 import Ops.CornerTable
 import Ops.Metadata
+import Ops.BitCoders
 /- Line-protocol driver of the executable model: one op per line in, one line out. -/
 open Draco
 
 def allOps : List (String × (List String → String)) :=
-  Ops.coreOps ++ Ops.codecOps ++ Ops.transformOps ++ Ops.quantOps ++ Ops.cornerTableOps ++ Ops.metadataOps
+  Ops.coreOps ++ Ops.codecOps ++ Ops.transformOps ++ Ops.quantOps ++ Ops.cornerTableOps ++ Ops.metadataOps ++ Ops.bitCoderOps
 
 def dispatch (line : String) : String :=
   match (line.trimAscii.toString.splitOn " ").filter (· ≠ "") with
